@@ -12,13 +12,13 @@ Section ValInd.
   Hypothesis Hbool : forall b, P (VBool b).
   Hypothesis Hnum : forall z, P (VNum z).
   Hypothesis Hstr : forall s, P (VStr s).
-  Hypothesis Hdig : forall a e s n v, P v -> P (VDig a e s n v).
+  Hypothesis Hdig : forall a c e s n v, P v -> P (VDig a c e s n v).
   Hypothesis Harr : forall l, Forall P l -> P (VArr l).
   Hypothesis Hobj : forall m, Forall (fun kv => P (snd kv)) m -> P (VObj m).
   Fixpoint val_ind' (v : val) : P v :=
     match v with
     | VNull => Hnull | VBool b => Hbool b | VNum z => Hnum z | VStr s => Hstr s
-    | VDig a e s n x => Hdig a e s n x (val_ind' x)
+    | VDig a c e s n x => Hdig a c e s n x (val_ind' x)
     | VArr l => Harr l ((fix go (l : list val) : Forall P l :=
                            match l with [] => Forall_nil _ | x :: r => Forall_cons _ (val_ind' x) (go r) end) l)
     | VObj m => Hobj m ((fix go (m : list (string * val)) : Forall (fun kv => P (snd kv)) m :=
@@ -47,13 +47,13 @@ Qed.
 
 Lemma val_eqb_true x : forall y, val_eqb x y = true -> x = y.
 Proof.
-  induction x as [| b | z | s | a e s n v IH | l IH | m IH] using val_ind'; intros y H; destruct y; cbn in H; try discriminate.
+  induction x as [| b | z | s | a c e s n v IH | l IH | m IH] using val_ind'; intros y H; destruct y; cbn in H; try discriminate.
   - reflexivity.
   - apply Bool.eqb_prop in H; subst; reflexivity.
   - apply Z.eqb_eq in H; subst; reflexivity.
   - apply String.eqb_eq in H; subst; reflexivity.
   - repeat (apply andb_true_iff in H as [H ?]).
-    apply N.eqb_eq in H. match goal with X : N.eqb _ _ = true |- _ => apply N.eqb_eq in X end.
+    apply N.eqb_eq in H. repeat match goal with X : N.eqb _ _ = true |- _ => apply N.eqb_eq in X end.
     match goal with X : path_eqb _ _ = true |- _ => apply path_eqb_eq in X end.
     match goal with X : String.eqb _ _ = true |- _ => apply String.eqb_eq in X end.
     match goal with X : val_eqb _ _ = true |- _ => apply IH in X end. subst; reflexivity.
@@ -66,7 +66,7 @@ Qed.
 
 Lemma val_eqb_refl x : val_eqb x x = true.
 Proof.
-  induction x as [| b | z | s | a e s n v IH | l IH | m IH] using val_ind'; cbn.
+  induction x as [| b | z | s | a c e s n v IH | l IH | m IH] using val_ind'; cbn.
   - reflexivity.
   - apply Bool.eqb_reflx.
   - apply Z.eqb_refl.
@@ -137,7 +137,7 @@ Qed.
 (* a digest string occurring in a value (anywhere, also inside the preimage of another digest string) *)
 Fixpoint occurs (g : val) (v : val) {struct v} : Prop :=
   match v with
-  | VDig _ _ _ _ x => g = v \/ occurs g x
+  | VDig _ _ _ _ _ x => g = v \/ occurs g x
   | VStr _ => g = v
   | VArr l => fold_right (fun x acc => occurs g x \/ acc) False l
   | VObj m => fold_right (fun kv acc => occurs g (snd kv) \/ acc) False m
@@ -163,11 +163,11 @@ Definition Pc (D : list val) (v : val) : Prop :=
 
 Lemma collect_occurs_P D v : Pc D v.
 Proof.
-  induction v as [| b | z | s | a e s n v IH | l IH | m IH] using val_ind'; (split; [|try exact I]).
+  induction v as [| b | z | s | a c e s n v IH | l IH | m IH] using val_ind'; (split; [|try exact I]).
   1-3: intros ctx g Hin; cbn in Hin; contradiction.
   - intros ctx g Hin; cbn in Hin. destruct (N.eqb ctx 0); [contradiction|]. destruct Hin as [<-|[]]. reflexivity.
   - intros ctx g Hin; cbn in Hin. destruct (N.eqb ctx 0); [contradiction|]. cbn. destruct Hin as [<-|Hin]; [left; reflexivity|].
-    right. destruct (memv (VDig a e s n v) D && N.eqb e ctx); [|contradiction]. destruct IH as [IH _]. eapply IH; eassumption.
+    right. destruct (memv (VDig a c e s n v) D && N.eqb e ctx); [|contradiction]. destruct IH as [IH _]. eapply IH; eassumption.
   - intros ctx g Hin; cbn in Hin. cbn. apply fold_or. apply in_flat_map in Hin as [x [Hx Hin]].
     exists x; split; [assumption|]. rewrite Forall_forall in IH. specialize (IH x Hx).
     destruct x; try contradiction. destruct IH as [_ IH]. rewrite Forall_forall in IH.
